@@ -1,5 +1,5 @@
 CONSTANTS
-  Alphabet = {0, 127, 128, 143, 144, 159, 160, 191, 193, 194, 223, 224, 237, 239, 240, 244, 245, 247, 248}
+  Alphabet = {0, 127, 128, 191, 192, 193, 194, 223, 224, 237, 239, 240, 244, 245}
   MaxLen = 5
 SPECIFICATION Spec
 INVARIANT Emit
